@@ -66,7 +66,7 @@ func crcReference(obj string, n int) []Bit {
 
 func runC13(c *Checker) {
 	c.Level = "proof"
-	c.explain = "ComputeCRC is GF(2)-affine; the XOR-affine bit domain is exact on it. (1) For each fixed input length n the whole function is interpreted (all three loops unroll under constant propagation) and its 32 output bits are compared, as affine forms over the 8n input bits, with the checker's own direct CRC-32/MPEG-2 reference; (2) for arbitrary length, one abstract iteration of the data loop from a symbolic register (inductive step) must equal eight applications of the reference augmented step on input[i], MSB first, with i advancing by one under i < len(input) from 0; the initial register A must satisfy S(.,0)^32(A) = 0xFFFFFFFF; the code after the loop must return the big-endian bytes of S(.,0)^32(register) in a fresh slice; (3) the two emitters must apply it to the section window."
+	c.explain = "ComputeCRC is GF(2)-affine; the XOR-affine bit domain is exact on it. (1) For each fixed input length n the whole function is interpreted (all three loops unroll under constant propagation) and its 32 output bits are compared, as affine forms over the 8n input bits, with the checker's own direct CRC-32/MPEG-2 reference; (2) for arbitrary length, one abstract iteration of the data loop from a symbolic register (inductive step) must equal eight applications of the reference augmented step on input[i], MSB first, with i advancing by one under i < len(input) from 0; the initial register A must satisfy S(.,0)^32(A) = 0xFFFFFFFF; the code after the loop must return the big-endian bytes of S(.,0)^32(register) in a fresh slice; (3) the two emitters are interpreted on a few layouts each with an uninterpreted ComputeCRC that records its input: exactly one call, over the emitted section from table_id to the byte before CRC_32 (alignment stuffing included; located by the output's own pointer_field and section_length), its result stored in the next four bytes."
 	c.trust("go/ssa + go/types (x/tools v0.29.0)", "E1 transfer functions (XOR-affine bits are exact for &,|,^,<<,>> with constant operands and the γ-join of `if top != 0 { crc ^= poly }`)",
 		"lemma (standard): the augmented MSB-first CRC with register A, message m and 32 flush bits equals the direct CRC with init I whenever S(.,0)^32(A) = I (both sides are GF(2)-linear in (register, message) and agree on each part); with no final XOR, appending the CRC gives remainder 0")
 	const anchor = ":ComputeCRC"
